@@ -35,11 +35,11 @@ def walk_cfg(path, maxnodes, maxlen, corrupt='none', count=True, dev=False, inva
         invariants=invariants, properties=properties)
 
 
-def enum_run(ctx, mode, stride, procs, maxnodes=3, maxlen=3, corrupt='none', tag=''):
+def enum_run(ctx, mode, stride, procs, maxnodes=3, maxlen=3, corrupt='none', tag='', fs=3):
     """Run LvsEnum in `procs` processes (interleaved shards). Returns (names, [printed tuples])."""
     from concurrent.futures import ThreadPoolExecutor
     off0 = ctx.seed % stride
-    fs = min(stride, 3)            # focus shapes (LvsEnum!Focus) are sampled every 3rd instead of every stride-th
+    fs = min(stride, fs)           # focus shapes (LvsEnum!FocusW) are sampled every (fs * weight)-th instead of every stride-th
 
     def one(j):
         cfg = K.scratch('LvsEnum_%s_%s%s_%d.cfg' % (ctx.prop, mode, tag, j))
@@ -350,7 +350,7 @@ def stage_a(ctx, procs):
 def stage_b(ctx, procs):
     # ---- schemas
     (names, items), (tnames, titems) = K.par([
-        lambda: enum_run(ctx, 'schemas', ctx.pick(29, 1), procs, maxlen=4, tag='b'),     # #r1/#r1 of two-item rules
+        lambda: enum_run(ctx, 'schemas', ctx.pick(37, 1), procs, maxlen=4, tag='b', fs=4),     # #r1/#r1 of two-item rules
         lambda: enum_run(ctx, 'trees', 1, ctx.pick(2, procs), maxnodes=ctx.pick(3, 4), tag='t')])
     bad = []
     nrej = 0
@@ -500,7 +500,7 @@ def what_m(rec, cls, cnt, first):
 def stage_c(ctx, procs):
     n = ctx.pick(110, 1500)
     L = ctx.pick(3, 4)
-    gen = K.Gen(ctx.rng)
+    gen = K.Gen(ctx.rng, foreign=0.35, flat=0.2)
     recs, rejected = [], 0
     sid = 0
     stat = dict(enum=0, cut=0, fault=0, nested=0, again=0, cks=0, tabdiff=0)
